@@ -264,12 +264,12 @@ class Model(object):
         self.folded = {}
         self.desugared = 0
         if not os.environ.get("VERIF_NO_DESUGAR"):
+            from . import tables
+            generated = set(tables.schema_modules(self))
             for q, fi in self.funcs.items():
-                if any(isinstance(n, (ast.ListComp, ast.IfExp,
-                                      ast.GeneratorExp)) or
-                       (isinstance(n, ast.Attribute) and n.attr == "extend")
-                       for n in ast.walk(fi.node)):
-                    self.desugared += desugar.desugar_function(fi.node)
+                if fi.module in generated:
+                    continue       # generated bindings: reflected, not read
+                self.desugared += desugar.desugar_function(fi.node)
         self._fold_all()
         for q, fi in self.funcs.items():
             self._alpha(q, fi.node)
@@ -277,8 +277,11 @@ class Model(object):
     def _fold_all(self):
         if os.environ.get("VERIF_NO_FOLD"):
             return
-        from . import foldtemps
+        from . import foldtemps, tables
+        generated = set(tables.schema_modules(self))
         for q, fi in self.funcs.items():
+            if fi.module in generated:
+                continue
             short = q[len(self.pkg) + 1:] if q.startswith(self.pkg + ".") \
                 else q
             k = 0
